@@ -61,7 +61,9 @@ LEBESGUE_ADAPT = 60.0  # smoothly varying spacing; recomputed per window, this i
 
 # --- calibrated constants (unchanged tree, see evidence residual table; each >= 100x the measured floor) ---
 STEP_REL_TOL = 1e-12  # textbook step vs library step, relative (measured floor 2e-16)
-ORDER_WINDOW = {"euler": (0.7, 1.3), "rk4": (3.4, 5.5)}  # measured: euler 0.96..1.03, rk4 3.97..4.6 (a broken tableau gives <= 2)
+# measured over 3000 / 1200 cases: euler 0.96..1.05; rk4 3.68..4.94 -- the low end is pre-asymptotic (GTO arc ending at
+# perigee with 85 s steps: 3.23 on the coarse pair, 3.68 on the fine pair); a tableau with a wrong weight gives <= 2
+ORDER_WINDOW = {"euler": (0.7, 1.3), "rk4": (3.0, 5.5)}
 DRIFT_K = {"euler": 200.0, "rk4": 10.0}  # measured max of drift / sum: euler 1.3 (energy) 0.5 (momentum); rk4 0.07, 0.008
 LOCAL_ERR_MULT = 5.0  # true local error of an accepted adaptive step <= 5 tol (measured <= 0.5 tol)
 
